@@ -90,7 +90,7 @@ func (s *scte35) parseTable(data []byte) error {
 		b, _ := buf.ReadByte()
 		return b
 	}
-	if buf.Len() < int(uint16(psi.PointerField(data))+psi.PSIHeaderLen+15) {
+	if len(data) == 0 || buf.Len() < int(uint16(psi.PointerField(data))+psi.PSIHeaderLen+15) {
 		return gots.ErrInvalidSCTE35Length
 	}
 	// read over the pointer field
@@ -153,14 +153,14 @@ func (s *scte35) parseTable(data []byte) error {
 		}
 		// parse descriptors
 		descriptorLoopLength := binary.BigEndian.Uint16(buf.Next(2))
-		if buf.Len() < int(descriptorLoopLength+psi.CrcLen) {
+		if buf.Len() < int(descriptorLoopLength)+int(psi.CrcLen) {
 			return gots.ErrInvalidSCTE35Length
 		}
 		for bytesRead := uint16(0); bytesRead < descriptorLoopLength; {
 			descTag := readByte()
 			descLen := readByte()
 			// Make sure a bad descriptorLen doesn't kill us
-			if descriptorLoopLength-bytesRead-2 < uint16(descLen) {
+			if descriptorLoopLength-bytesRead < 2 || descriptorLoopLength-bytesRead-2 < uint16(descLen) {
 				return gots.ErrInvalidSCTE35Length
 			}
 			if descTag != segDescTag {
